@@ -106,7 +106,8 @@ def run(ctx):
         return None
 
     rnd = random.Random(ctx.seed)
-    tours, st = plan_tours(dump, state_key, op_of, init_of, max_tours=8000 if quick else 200000, rnd=rnd)
+    tours, st = plan_tours(dump, state_key, op_of, init_of, max_tours=8000 if quick else 200000, rnd=rnd,
+                            keep=lambda ops: ops[-1][0] == "sweep" and any(o[0] == "tick" for o in ops))
     os.remove(dump)
     tf = os.path.join(ctx.work, "lru-tours.jsonl")
     with open(tf, "w") as f:
